@@ -81,9 +81,48 @@ def tetra_tris(V):
     return np.array(out)
 
 
+_RAYS = [np.array([0.5257311121191336, 0.3141592653589793, 0.7905694150420949]),
+         np.array([-0.2718281828459045, 0.8414709848078965, 0.4673027349021854]),
+         np.array([0.6180339887498949, -0.7071067811865476, 0.3437746770784939])]
+
+
+def ray_parity(o, T, d):
+    """number of triangles of T crossed by the ray o + t d, t > 0 (Moeller-Trumbore), and the
+    smallest margin to a triangle rim in barycentric units (to detect grazing hits)"""
+    A, B, C = T[:, 0], T[:, 1], T[:, 2]
+    e1, e2 = B - A, C - A
+    h = np.cross(d, e2)
+    a = np.einsum("ij,ij->i", e1, h)
+    ok = np.abs(a) > 1e-300
+    a = np.where(ok, a, 1.0)
+    s = o - A
+    u = np.einsum("ij,ij->i", s, h) / a
+    q = np.cross(s, e1)
+    v = (q @ d) / a
+    t = np.einsum("ij,ij->i", e2, q) / a
+    hit = ok & (u > 0) & (v > 0) & (u + v < 1) & (t > 0)
+    margin = np.min(np.abs(np.stack([u, v, 1 - u - v]))[:, ok & (t > 0)]) if np.any(ok & (t > 0)) else 1.0
+    return int(hit.sum()), float(margin)
+
+
+def point_in_mesh(o, T):
+    """inside test that does not depend on the winding of the faces: parity of ray crossings,
+    majority over rays that do not graze an edge"""
+    votes = []
+    for d in _RAYS:
+        d = d / np.linalg.norm(d)
+        n, m = ray_parity(o, T, d)
+        if m > 1e-9:
+            votes.append(n % 2)
+    if not votes:
+        votes = [ray_parity(o, T, _RAYS[0] / np.linalg.norm(_RAYS[0]))[0] % 2]
+    return sum(votes) * 2 > len(votes)
+
+
 def mesh_tris(verts, faces):
-    """outward oriented triangles of a closed, consistently windable mesh: orientation is
-    decided per face by the winding number of a point just off the face (own computation)"""
+    """outward oriented triangles of a closed mesh whose faces may be wound arbitrarily:
+    orientation is decided per face by a winding-independent inside test of a point just off
+    the face (own computation, independent of magpylib's reorientation)"""
     V = np.asarray(verts, float)
     T = np.array([[V[i] for i in f] for f in faces])
     size = np.ptp(V, axis=0).max()
@@ -91,10 +130,8 @@ def mesh_tris(verts, faces):
     for A, B, C in T:
         n = np.cross(B - A, C - A)
         n /= np.linalg.norm(n)
-        c = (A + B + C) / 3 + 1e-4 * size * n
-        w = solid_angle_sum(c, T)
-        # the winding number is +-1 inside and 0 outside whatever the global orientation is
-        if abs(w) > 0.5:        # c is inside: n points inwards
+        c = (A + B + C) / 3 + 1e-6 * size * n
+        if point_in_mesh(c, T):     # n points inwards
             out.append([A, C, B])
         else:
             out.append([A, B, C])
@@ -137,7 +174,7 @@ def centre_of(case):
     if c == "CylinderSegment":
         r1, r2, h, a1, a2 = p["dimension"]
         am = math.radians(0.5 * (a1 + a2))
-        rm = 0.5 * (r1 + r2) if a2 - a1 < 360 else 0.0
+        rm = 0.5 * (r1 + r2)
         return np.array([rm * math.cos(am), rm * math.sin(am), 0.0])
     return np.zeros(3)
 
@@ -168,7 +205,7 @@ def inside_and_dist(case, o):
         full = (a2 - a1) >= 360
         r, phi, z = math.hypot(o[0], o[1]), math.atan2(o[1], o[0]), o[2]
         inphi = full or ang_in(phi, p1, p2)
-        inside = (r1 < r < r2) and inphi and abs(z) < h / 2
+        inside = (r1 < r or r1 == 0) and r < r2 and (inphi or r == 0) and abs(z) < h / 2
         cands = []
         zc = min(h / 2, max(-h / 2, z))
         rc = min(r2, max(r1, r))
@@ -195,7 +232,7 @@ def inside_and_dist(case, o):
     if c in ("Tetrahedron", "TriangularMesh"):
         T = body_tris(case)
         d = min(dist_point_triangle(o, A, B, C) for A, B, C in T)
-        return abs(solid_angle_sum(o, T)) > 0.5, float(d)
+        return point_in_mesh(o, T), float(d)
     if c == "Triangle":
         A, B, C = np.asarray(p["vertices"], float)
         return False, float(dist_point_triangle(o, A, B, C))
@@ -222,7 +259,7 @@ def reference(case, o, rel=1e-10):
         return H, Q.MU0 * H, np.linalg.norm(m) / (4 * math.pi * D ** 3), True, 1
     if c == "Circle":
         r0, cur = abs(p["diameter"]) / 2, p["current"]
-        S = abs(cur) / (2 * r0) * min(1.0, (r0 / D) ** 3)
+        S = abs(cur) / (2 * r0) * min(1.0, r0 / D) ** 3
         H, err, ok, ev = Q.circle_H(p["diameter"], cur, o, rel * S)
         return H, Q.MU0 * H, S, ok, ev
     if c == "Polyline":
@@ -240,10 +277,10 @@ def reference(case, o, rel=1e-10):
     if c == "Triangle":
         A, B, C = np.asarray(p["vertices"], float)
         sig = float(Q.tri_normal(A, B, C) @ J)
-        S_G = abs(sig) * min(1.0, (s / D) ** 2) + 1e-300
+        S_G = abs(sig) * min(1.0, s / D) ** 2 + 1e-300
         patches = [Q.tri_patch(A, B, C, sig)] if sig != 0 else []
     else:
-        S_G = Jn * min(1.0, (s / D) ** 3)
+        S_G = Jn * min(1.0, s / D) ** 3
         if c == "Cuboid":
             patches = Q.cuboid_patches(p["dimension"], J)
         elif c == "Cylinder":
@@ -317,8 +354,16 @@ def evaluate(case):
         B = np.asarray(src.getB(og), float)
         H = np.asarray(src.getH(og), float)
     except Exception as e:   # pylint: disable=broad-except
-        return {"status": "error", "why": f"{type(e).__name__}: {e}"}
+        import traceback
+        return {"status": "error", "why": f"{type(e).__name__}: {e}", "trace": traceback.format_exc()[-1500:]}
     out = {"status": "ok", "inside": bool(inside), "dist_rel": dist / s, "evals": ev}
+    if "polarization" in case["params"] and np.all(np.isfinite(B)) and np.all(np.isfinite(H)):
+        Jg = M @ np.asarray(case["params"]["polarization"], float)
+        dJ = B - Q.MU0 * H
+        jn = np.linalg.norm(Jg)
+        if jn > 0:
+            out["b_minus_mu0h_is_j"] = (True if np.linalg.norm(dJ - Jg) < 1e-6 * jn else
+                                        False if np.linalg.norm(dJ) < 1e-6 * jn else None)
     worst = 0.0
     for nm, F, Fr, sc in (("H", H, Href, S), ("B", B, Bref, S * Q.MU0)):
         if F.shape != (3,) or not np.all(np.isfinite(F)):
@@ -333,3 +378,422 @@ def evaluate(case):
             out.update(which=nm, got=[float(x) for x in F], expected=[float(x) for x in Fr])
     out["rel"] = worst
     return out
+
+
+# =========================================================================== generators
+# Every case is plain JSON: {cls, params, pos, rotvec, obs_local, kind}.  `kind` only records
+# how the observer was placed (it is not trusted: the region is recomputed from geometry).
+def _r3(rng, lo=-1.0, hi=1.0):
+    return [rng.uniform(lo, hi) for _ in range(3)]
+
+
+def _unit(rng):
+    while True:
+        v = np.array(_r3(rng))
+        n = np.linalg.norm(v)
+        if 0.1 < n <= 1:
+            return v / n
+
+
+def _logu(rng, lo, hi):
+    return 10 ** rng.uniform(math.log10(lo), math.log10(hi))
+
+
+def _pol(rng):
+    """polarization / moment: generic, or with zero components (axial / transversal only)"""
+    k = rng.random()
+    v = _r3(rng)
+    if k < 0.15:
+        v = [0.0, 0.0, v[2]]
+    elif k < 0.3:
+        v = [v[0], v[1], 0.0]
+    elif k < 0.4:
+        v = [v[0], 0.0, 0.0]
+    s = _logu(rng, 0.01, 2.0)
+    return [s * x for x in v]
+
+
+_CUBE_V = [[-1, -1, -1], [1, -1, -1], [1, 1, -1], [-1, 1, -1], [-1, -1, 1], [1, -1, 1], [1, 1, 1], [-1, 1, 1]]
+_CUBE_F = [[0, 2, 1], [0, 3, 2], [4, 5, 6], [4, 6, 7], [0, 1, 5], [0, 5, 4], [2, 3, 7], [2, 7, 6],
+           [1, 2, 6], [1, 6, 5], [0, 4, 7], [0, 7, 3]]
+# L-shaped prism (non-convex), 12 vertices
+_L_XY = [[0, 0], [2, 0], [2, 1], [1, 1], [1, 2], [0, 2]]
+
+
+def _l_prism():
+    V = [[x, y, 0.0] for x, y in _L_XY] + [[x, y, 1.0] for x, y in _L_XY]
+    F = []
+    # bottom (z=0) and top (z=1), fan triangulation valid for this L (from vertex 3 = reflex corner)
+    fan = [[3, 4, 5], [3, 5, 0], [3, 0, 1], [3, 1, 2]]
+    for a, b, c in fan:
+        F.append([a, c, b])
+        F.append([a + 6, b + 6, c + 6])
+    for i in range(6):
+        j = (i + 1) % 6
+        F.append([i, j, j + 6])
+        F.append([i, j + 6, i + 6])
+    return V, F
+
+
+def gen_params(rng, cls):
+    sc = _logu(rng, 0.05, 20.0)            # overall length scale of the source
+    if cls == "Cuboid":
+        return {"polarization": _pol(rng), "dimension": [sc * _logu(rng, 0.3, 3.0) for _ in range(3)]}
+    if cls == "Cylinder":
+        return {"polarization": _pol(rng), "dimension": [sc * _logu(rng, 0.3, 3.0), sc * _logu(rng, 0.3, 3.0)]}
+    if cls == "CylinderSegment":
+        r2 = sc * _logu(rng, 0.5, 2.0)
+        r1 = 0.0 if rng.random() < 0.25 else r2 * rng.uniform(0.1, 0.85)
+        a1 = rng.choice([0.0, -90.0, 30.0, rng.uniform(-180, 180)])
+        span = rng.choice([360.0, 180.0, 90.0, rng.uniform(20, 340)])
+        return {"polarization": _pol(rng), "dimension": [r1, r2, sc * _logu(rng, 0.3, 3.0), a1, a1 + span]}
+    if cls == "Sphere":
+        return {"polarization": _pol(rng), "diameter": sc}
+    if cls == "Tetrahedron":
+        while True:
+            V = np.array([_r3(rng) for _ in range(4)]) * sc
+            vol = abs(np.linalg.det(V[1:] - V[0])) / 6
+            if vol > 0.02 * sc ** 3:
+                return {"polarization": _pol(rng), "vertices": V.tolist()}
+    if cls == "TriangularMesh":
+        k = rng.random()
+        if k < 0.3:
+            V = (np.array(_CUBE_V, float) * np.array([_logu(rng, 0.3, 3) for _ in range(3)]) * sc / 2)
+            F = [list(f) for f in _CUBE_F]
+        elif k < 0.5:
+            V0, F = _l_prism()
+            V = np.array(V0) * sc / 2
+        else:
+            from scipy.spatial import ConvexHull
+            while True:
+                P = np.array([_r3(rng) for _ in range(rng.randint(5, 8))]) * sc
+                h = ConvexHull(P)
+                if len(h.vertices) == len(P) and h.volume > 0.05 * sc ** 3:
+                    break
+            V, F = P, h.simplices.tolist()
+        # random (inconsistent) winding: the class reorients faces itself
+        F = [f if rng.random() < 0.5 else [f[0], f[2], f[1]] for f in F]
+        return {"polarization": _pol(rng), "vertices": np.asarray(V, float).tolist(), "faces": F}
+    if cls == "Triangle":
+        while True:
+            V = np.array([_r3(rng) for _ in range(3)]) * sc
+            if np.linalg.norm(np.cross(V[1] - V[0], V[2] - V[0])) > 0.1 * sc ** 2:
+                return {"polarization": _pol(rng), "vertices": V.tolist()}
+    if cls == "Circle":
+        return {"current": rng.choice([1.0, -1.0]) * _logu(rng, 0.01, 100.0), "diameter": sc}
+    if cls == "Polyline":
+        n = rng.randint(2, 5)
+        V = [np.array(_r3(rng)) * sc]
+        while len(V) < n:
+            k = rng.random()
+            if k < 0.12 and len(V) >= 2:
+                V.append(V[-1] + (V[-1] - V[-2]) * rng.uniform(0.3, 2.0))      # collinear continuation
+            elif k < 0.2:
+                V.append(V[-1].copy())                                          # zero-length segment
+            else:
+                V.append(V[-1] + _unit(rng) * sc * _logu(rng, 0.2, 2.0))
+        if all(np.all(V[i] == V[i + 1]) for i in range(len(V) - 1)):
+            V[-1] = V[-1] + _unit(rng) * sc
+        return {"current": rng.choice([1.0, -1.0]) * _logu(rng, 0.01, 100.0), "vertices": [v.tolist() for v in V]}
+    if cls == "Dipole":
+        return {"moment": _pol(rng)}
+    raise ValueError(cls)
+
+
+def _surface_point(rng, case):
+    """a point on the surface / wire and a direction to leave it (body: roughly outward)"""
+    p, c = case["params"], case["cls"]
+    if c == "Dipole":
+        return np.zeros(3), _unit(rng)
+    if c == "Circle":
+        r0, ph = abs(p["diameter"]) / 2, rng.uniform(0, 2 * math.pi)
+        return np.array([r0 * math.cos(ph), r0 * math.sin(ph), 0.0]), _unit(rng)
+    if c == "Polyline":
+        V = np.asarray(p["vertices"], float)
+        i = rng.randrange(len(V) - 1)
+        return V[i] + rng.random() * (V[i + 1] - V[i]), _unit(rng)
+    if c == "Triangle":
+        A, B, C = np.asarray(p["vertices"], float)
+        u, v = rng.random(), rng.random()
+        if u + v > 1:
+            u, v = 1 - u, 1 - v
+        return A + u * (B - A) + v * (C - A), _unit(rng)
+    # bodies: shoot a ray from an interior point and bisect on this module's own inside test
+    cen = centre_of(case)
+    if c == "TriangularMesh":        # centre of a non-convex mesh may lie outside: use a face-near interior point
+        T = body_tris(case)
+        A, B, C = T[rng.randrange(len(T))]
+        n = np.cross(B - A, C - A)
+        cen = (A + B + C) / 3 - 1e-3 * size_of(case) * n / np.linalg.norm(n)
+    d = _unit(rng)
+    lo, hi = 0.0, 4.0 * size_of(case)
+    for _ in range(60):
+        mid = 0.5 * (lo + hi)
+        if inside_and_dist(case, cen + mid * d)[0]:
+            lo = mid
+        else:
+            hi = mid
+    return cen + 0.5 * (lo + hi) * d, d
+
+
+KINDS = {
+    "Cuboid": ["near", "near", "mid", "far", "inside", "edge-ext", "plane"],
+    "Cylinder": ["near", "near", "mid", "far", "inside", "axis", "axis", "plane"],
+    "CylinderSegment": ["near", "near", "mid", "far", "inside", "axis", "plane"],
+    "Sphere": ["near", "mid", "far", "inside"],
+    "Tetrahedron": ["near", "near", "mid", "far", "inside", "edge-ext", "plane"],
+    "TriangularMesh": ["near", "near", "mid", "far", "inside", "edge-ext", "plane"],
+    "Triangle": ["near", "near", "mid", "far", "edge-ext", "plane"],
+    "Circle": ["near", "near", "mid", "far", "axis", "axis", "plane"],
+    "Polyline": ["near", "near", "mid", "far", "edge-ext", "edge-ext", "edge-ext-exact"],
+    "Dipole": ["near", "mid", "far"],
+}
+
+
+def _edges(case):
+    p, c = case["params"], case["cls"]
+    if c == "Cuboid":
+        h = np.abs(np.asarray(p["dimension"], float)) / 2
+        out = []
+        for ax in range(3):
+            for s1 in (-1, 1):
+                for s2 in (-1, 1):
+                    a = np.zeros(3)
+                    b = np.zeros(3)
+                    o1, o2 = [(1, 2), (0, 2), (0, 1)][ax]
+                    a[o1] = b[o1] = s1 * h[o1]
+                    a[o2] = b[o2] = s2 * h[o2]
+                    a[ax], b[ax] = -h[ax], h[ax]
+                    out.append((a, b))
+        return out
+    if c == "Polyline":
+        V = np.asarray(p["vertices"], float)
+        return [(a, b) for a, b in zip(V[:-1], V[1:]) if not np.all(a == b)]
+    T = body_tris(case)
+    return [(X, Y) for A, B, C in T for X, Y in ((A, B), (B, C), (C, A))]
+
+
+def gen_observer(rng, case, kind):
+    c, s = case["cls"], size_of(case)
+    p = case["params"]
+    if kind in ("near", "mid", "far"):
+        lo, hi = {"near": (1e-3, 0.3), "mid": (0.3, 10.0), "far": (10.0, 1e3)}[kind]
+        q, d = _surface_point(rng, case)
+        return q + d * s * _logu(rng, lo * 1.05, hi)
+    if kind == "inside":
+        q, d = _surface_point(rng, case)
+        cen = centre_of(case)
+        if rng.random() < 0.5:
+            return q - d * s * _logu(rng, 1.05e-3, 0.05)           # just below the surface
+        t = rng.uniform(0.05, 0.95)
+        return cen + t * (q - cen) if c != "TriangularMesh" else q - d * s * _logu(rng, 1.05e-3, 0.05)
+    if kind == "axis":          # near the symmetry axis, both sides of the small-r switches
+        if c == "Circle":
+            R = abs(p["diameter"]) / 2
+            H = R
+        else:
+            R = p["dimension"][0] / 2 if c == "Cylinder" else p["dimension"][1]
+            H = p["dimension"][1] if c == "Cylinder" else p["dimension"][2]
+        k = rng.random()
+        r = 0.0 if k < 0.2 else R * (_logu(rng, 1e-9, 0.2) if k < 0.6 else rng.uniform(0.03, 0.07))
+        ph = rng.uniform(0, 2 * math.pi)
+        z = rng.choice([-1, 1]) * H * (_logu(rng, 1e-3, 30.0))
+        return np.array([r * math.cos(ph), r * math.sin(ph), z])
+    if kind in ("edge-ext", "edge-ext-exact"):
+        E = _edges(case)
+        a, b = E[rng.randrange(len(E))]
+        t = rng.choice([-1, 1]) * _logu(rng, 2e-3, 300.0)
+        q = (b + t * (b - a)) if t > 0 else (a + t * (b - a))
+        if kind == "edge-ext-exact" or rng.random() < 0.5:
+            return q                                                # (rounded) on the extension line
+        return q + _unit(rng) * np.linalg.norm(q - b) * _logu(rng, 1e-12, 1e-2)
+    if kind == "plane":         # in the plane of a face, beyond its rim
+        if c == "Cuboid":
+            h = np.abs(np.asarray(p["dimension"], float)) / 2
+            ax = rng.randrange(3)
+            o = np.array([rng.choice([-1, 1]) * h[i] * (1 + _logu(rng, 2e-3, 30.0)) for i in range(3)])
+            o[ax] = rng.choice([-1, 1]) * h[ax]
+            return o
+        if c in ("Cylinder", "CylinderSegment"):
+            R = p["dimension"][0] / 2 if c == "Cylinder" else p["dimension"][1]
+            H = p["dimension"][1] if c == "Cylinder" else p["dimension"][2]
+            ph = rng.uniform(0, 2 * math.pi)
+            if rng.random() < 0.5:      # plane of a base, outside the hull radius
+                r = R * (1 + _logu(rng, 2e-3, 30.0))
+                return np.array([r * math.cos(ph), r * math.sin(ph), rng.choice([-1, 1]) * H / 2])
+            z = rng.choice([-1, 1]) * H / 2 * (1 + _logu(rng, 4e-3, 30.0))   # on the hull cylinder, beyond a base
+            return np.array([R * math.cos(ph), R * math.sin(ph), z])
+        if c == "Circle":
+            R = abs(p["diameter"]) / 2
+            ph = rng.uniform(0, 2 * math.pi)
+            r = R * (1 + rng.choice([-1, 1]) * _logu(rng, 2e-3, 0.9)) if rng.random() < 0.5 else R * _logu(rng, 1.1, 100)
+            return np.array([r * math.cos(ph), r * math.sin(ph), 0.0])
+        T = body_tris(case)
+        A, B, C = T[rng.randrange(len(T))]
+        u, v = rng.uniform(-3, 3), rng.uniform(-3, 3)
+        return A + u * (B - A) + v * (C - A)
+    raise ValueError(kind)
+
+
+def gen_case(rng, cls, kind=None):
+    for _ in range(50):
+        case = {"cls": cls, "params": gen_params(rng, cls)}
+        k = kind or rng.choice(KINDS[cls])
+        if rng.random() < 0.25:
+            case["pos"], case["rotvec"] = [0.0, 0.0, 0.0], [0.0, 0.0, 0.0]
+        else:
+            case["pos"] = [x * size_of(case) * 3 for x in _r3(rng)]
+            case["rotvec"] = (_unit(rng) * rng.uniform(0.1, 3.1)).tolist()
+        try:
+            o = np.asarray(gen_observer(rng, case, k), float)
+        except Exception:   # pylint: disable=broad-except
+            continue
+        if not np.all(np.isfinite(o)):
+            continue
+        _, dist = inside_and_dist(case, o)
+        s = size_of(case)
+        if 1.0e-3 * s <= dist <= 1.0e3 * s:
+            case["obs_local"] = o.tolist()
+            case["kind"] = k
+            return case
+    raise RuntimeError("no admissible observer generated for " + cls)
+
+
+# =========================================================================== verdict per case
+def edge_angle(case, o):
+    """smallest angle (rad, small-angle) between the observer and the extension line of an edge /
+    segment, seen from the nearer end point; inf when there are no edges"""
+    best = float("inf")
+    if case["cls"] not in ("Polyline", "Cuboid", "Triangle", "Tetrahedron", "TriangularMesh"):
+        return best
+    for a, b in _edges(case):
+        L = np.linalg.norm(b - a)
+        e = (b - a) / L
+        w = o - a
+        t = w @ e
+        if 0 <= t <= L:
+            continue
+        perp = np.linalg.norm(w - t * e)
+        ax = -t if t < 0 else t - L
+        best = min(best, perp / max(ax, 1e-300))
+    return best
+
+
+def region(case):
+    """coarse, geometry-derived description of where the observer is (used in signatures):
+    inside|outside, then the special zone it lies in (on-axis, small-r, edge-extension) or,
+    when in none, the distance class near (<0.1 size) | mid | far (>10 size)"""
+    c, p = case["cls"], case["params"]
+    o = np.asarray(case["obs_local"], float)
+    inside, dist = inside_and_dist(case, o)
+    s = size_of(case)
+    tags = ["inside" if inside else "outside"]
+    if c in ("Cylinder", "CylinderSegment", "Circle"):
+        R = abs(p["diameter"]) / 2 if c == "Circle" else (p["dimension"][0] / 2 if c == "Cylinder" else p["dimension"][1])
+        r = math.hypot(o[0], o[1])
+        if r == 0:
+            tags.append("on-axis")
+        elif r < 0.05 * R:
+            tags.append("small-r")
+    if edge_angle(case, o) < 1e-3:
+        tags.append("edge-extension")
+    if len(tags) == 1:
+        rel = dist / s
+        tags.append("near" if rel < 0.1 else "mid" if rel < 10 else "far")
+    return ":".join(tags)
+
+
+EPS = 2.0 ** -52
+
+
+def tolerance(case):
+    """relative (to the local field scale) deviation from the first-principles integral that the
+    property text allows (`within the numerical accuracy the library documents`).
+
+    The library documents exact closed forms evaluated in binary64 and warns, without numbers,
+    that accuracy `can be a problem very close to objects, close the z-axis in cylindrical
+    symmetries, at edge extensions, and at large distances`; triangle_Bfield documents its loss of
+    precision quantitatively: `as (x-edge)**2` when approaching an edge (extension) and `as
+    distance**3` with distance.  Policy: 1e-4 of the local field scale everywhere (a wrong sign,
+    branch, term or factor is an error of 1e-2..1), 1e-3 in the far field (> 10 sizes) and for
+    CylinderSegment, plus the two documented power laws for the triangle-based classes.  The
+    worst deviations measured on the unchanged tree outside the recorded findings stay a decade
+    below these bounds (see C01.meta.json)."""
+    c = case["cls"]
+    o = np.asarray(case["obs_local"], float)
+    _, dist = inside_and_dist(case, o)
+    s = size_of(case)
+    tol = 1e-4
+    if dist > 10 * s or c == "CylinderSegment":
+        tol = 1e-3
+    if c in ("Triangle", "Tetrahedron", "TriangularMesh"):
+        th = edge_angle(case, o)
+        D = max(np.linalg.norm(o - centre_of(case)), s)
+        tol += 1e3 * EPS / max(th, 1e-300) ** 2 + 1e2 * EPS * (D / s) ** 3
+    return tol
+
+
+def judge(case, res):
+    """(failed?, signature, text) for an evaluate() result"""
+    if res["status"] == "error":
+        return True, f"raises/{case['cls']}", f"valid input raised: {res['why']}"
+    if res["status"] not in ("fail", "ok"):
+        return False, None, None
+    reg = region(case)
+    clause = CLAUSE.get(case["cls"], "coulomb")
+    if res["status"] == "fail":
+        return True, f"finite/{case['cls']}:{reg}", f"get{res['which']} is not a finite 3-vector: {res['got']}"
+    tol = tolerance(case)
+    if res["rel"] > tol:
+        # H right but B off by the polarization: the interior term J[inside] is wrong, not the integral
+        if "polarization" in case["params"] and res.get("rel_H", 1.0) <= tol and res.get("b_minus_mu0h_is_j") is not None \
+                and res["b_minus_mu0h_is_j"] != res["inside"]:
+            return True, f"interior-term/{case['cls']}:{reg}", (
+                f"{case['cls']} getH agrees with the surface-charge integral but getB "
+                f"{'adds' if res['b_minus_mu0h_is_j'] else 'omits'} the polarization J at an observer "
+                f"{'inside' if res['inside'] else 'outside'} the body: got {res['got']}, expected {res['expected']}")
+        return True, f"{clause}/{case['cls']}:{reg}", (
+            f"{case['cls']} get{res['which']} differs from the first-principles integral by "
+            f"{res['rel']:.2e} of the local field scale (allowed {tol:.1e}): got {res['got']}, expected {res['expected']}")
+    return False, None, None
+
+
+def shrink_case(case, fails):
+    """simplify a failing case while it keeps failing with the same signature (pose first)"""
+    cur = dict(case)
+
+    def attempt(mod):
+        cand = json_copy(cur)
+        mod(cand)
+        try:
+            if fails(cand):
+                cur.clear()
+                cur.update(cand)
+        except Exception:   # pylint: disable=broad-except
+            pass
+
+    attempt(lambda c: c.update(pos=[0.0, 0.0, 0.0], rotvec=[0.0, 0.0, 0.0]))
+    attempt(lambda c: c.update(pos=[0.0, 0.0, 0.0]))
+    attempt(lambda c: c.update(rotvec=[0.0, 0.0, 0.0]))
+    if cur["cls"] == "Polyline":
+        V = cur["params"]["vertices"]
+        for i in range(len(V) - 1):
+            a, b = V[i], V[i + 1]
+            attempt(lambda c, a=a, b=b: c["params"].update(vertices=[a, b]))
+    for key in ("polarization", "moment"):
+        if key in cur["params"]:
+            for i in range(3):
+                def z(c, i=i, key=key):
+                    v = list(c["params"][key])
+                    v[i] = 0.0
+                    if any(v):
+                        c["params"][key] = v
+                attempt(z)
+    if "current" in cur["params"]:
+        attempt(lambda c: c["params"].update(current=1.0))
+    return cur
+
+
+def json_copy(x):
+    import json
+    return json.loads(json.dumps(x))
